@@ -355,6 +355,9 @@ func gen(rng *rand.Rand, tier string) []string {
 	if tier == "thorough" {
 		maxOps = 16 + rng.Intn(16)
 	}
+	if maxOps > nw*12-2 {
+		maxOps = nw*12 - 2
+	}
 	var out []string
 	nextV := 1
 	if rng.Intn(3) == 0 {
@@ -375,7 +378,7 @@ func gen(rng *rand.Rand, tier string) []string {
 	wPeek, wTail, wEmpty, wReset := 5+rng.Intn(10), 5+rng.Intn(10), 3+rng.Intn(8), rng.Intn(6)
 	sum := wPush + wFront + wPop + wPeek + wTail + wEmpty + wReset
 	counts := make([]int, nw)
-	for n := 0; n < maxOps; {
+	for n := 0; n < maxOps && len(out) < 120; {
 		r := rng.Intn(100)
 		switch {
 		case r < 78:
